@@ -30,15 +30,35 @@ def main():
         # baseline demo output
         demo = meta.get("demo_cmd", "")
         demos = [f for f in os.listdir(src) if f not in ("patch.diff", "meta.json") and not f.startswith("out_")]
+        gotests = []
         for f in demos:
-            shutil.copy(os.path.join(src, f), wt)
+            if f.endswith("_test.go"):
+                # place the Go test where the demo command says (cp <file> <repo>/<dir>/)
+                m = re.search(r"cp\s+\S*%s\s+(\S+)" % re.escape(f), demo)
+                sub = ""
+                if m:
+                    sub = re.sub(r"^/tmp/seedwt-[a-z0-9]+/?", "", m.group(1)).strip("/")
+                    if sub.startswith("."):
+                        sub = sub.lstrip("./")
+                shutil.copy(os.path.join(src, f), os.path.join(wt, sub))
+                gotests.append((sub or ".", f))
+            else:
+                shutil.copy(os.path.join(src, f), wt)
         def run_demo():
-            if "go test" in demo:
-                return sh(demo.split("&&")[-1].strip(), cwd=wt, timeout=600)[1][-1500:]
+            outs = []
             d = next((f for f in demos if f.endswith(".pangaea")), None)
             if d:
-                return sh("go run . %s 2>&1 | head -60" % d, cwd=wt, timeout=600)[1][-1500:]
-            return "(no runnable demo found)"
+                outs.append(sh("go run . %s 2>&1 | head -60" % d, cwd=wt, timeout=600)[1][-1200:])
+            for sub, f in gotests:
+                m = re.search(r"-run\s+(\S+)", demo)
+                race = "-race" if "-race" in demo else ""
+                env2 = dict(ENV, CGO_ENABLED="1") if race else ENV
+                o = sh("go test %s -vet=off -count=1 -run '%s' ./%s/ 2>&1 | grep -v '^\s*/\|^goroutine\|^$' | head -30" % (
+                    race, m.group(1) if m else ".", sub), cwd=wt, env=env2, timeout=900)[1]
+                o = re.sub(r"\d+\.\d+s", "Xs", o)
+                o = re.sub(r"0x[0-9a-f]+", "0x..", o)
+                outs.append(o[-1200:])
+            return "\n".join(outs) if outs else "(no runnable demo found)"
         base = run_demo()
         rc, out = sh("git apply %s" % os.path.join(src, "patch.diff"), cwd=wt)
         res["patch_applies"] = rc == 0
@@ -47,6 +67,8 @@ def main():
             print(json.dumps(res, indent=1)); return 1
         rc, out = sh("go build ./... 2>&1 | tail -5", cwd=wt)
         res["builds"] = "error" not in out.lower() and rc == 0
+        for sub, f in gotests:   # the demonstration test itself is expected to fail with the change
+            os.rename(os.path.join(wt, sub, f), os.path.join(wt, sub, f + ".off"))
         rc, out = sh("go test -vet=off -count=1 ./... 2>&1 | grep -v 'no test files' | tail -15", cwd=wt, timeout=1500)
         fails = [l for l in out.splitlines() if l.startswith("FAIL") or l.startswith("--- FAIL")]
         real = [l for l in fails if "TestServeBackground" not in l and not re.match(r"FAIL\s+github.com/Syuparn/pangaea/props/modules/http/builtin", l) and l.strip() != "FAIL"]
@@ -55,6 +77,8 @@ def main():
             res["go_test_failures"] = real[:5]
         rc, out = sh("go run . test tests 2>&1 | tail -1", cwd=wt, timeout=900)
         res["scripts_pass"] = out.strip().startswith("pass:")
+        for sub, f in gotests:
+            os.rename(os.path.join(wt, sub, f + ".off"), os.path.join(wt, sub, f))
         changed = run_demo()
         res["demo_differs"] = base != changed
         res["demo_unmodified"] = base[-600:]
